@@ -145,7 +145,7 @@ def applyDelta (s : NMap RV) (d : Nat × RV) : NMap RV :=
 def applyDeltas (s : NMap RV) (ds : List (Nat × RV)) : NMap RV := ds.foldl applyDelta s
 
 /-- which bucket-fold the current tree uses -/
-def currentSortBucket : Bool := false
+def currentSortBucket : Bool := true
 
 /-- the crosswise application of `run_anti_entropy_sync`: both delta sets are computed from the
     pre-states (`get_keys_in_buckets` on either side), then `node_b` applies `deltas_a` and
